@@ -109,6 +109,7 @@ impl Directive {
             segments,
             macros,
             messages,
+            include_depth,
         } = context;
 
         match self {
@@ -255,6 +256,7 @@ impl Directive {
                             segments: segments.clone(),
                             macros: macros.clone(),
                             messages: messages.clone(),
+                            include_depth: include_depth + 1,
                         };
                         parse_file_internal(&context)?;
                     } else {
